@@ -243,7 +243,20 @@ func (d Doc) HasNull() bool {
 // Render produces the document text.
 func (d Doc) Render() []byte {
 	var b strings.Builder
+	// insignificant whitespace around the whole document (RFC 8259: ws value ws)
+	switch d.WS {
+	case 1:
+		b.WriteByte(' ')
+	case 3:
+		b.WriteString("\r\n\t ")
+	}
 	d.render(&b)
+	switch d.WS {
+	case 2:
+		b.WriteByte('\n')
+	case 3:
+		b.WriteString(" \n")
+	}
 	return []byte(b.String())
 }
 
